@@ -7,6 +7,11 @@ mkdir -p build evidence replays
 /venv/bin/python harness/translate.py "${GBS_REPO:-/repo}/src/gbigsmiles" coq/Src || true
 cd coq
 coq_makefile -f _CoqProject -o Makefile > /dev/null
-timeout 3000 make -j"$(nproc)" 2>&1 | grep -v "^Closed under\|^COQC\|^COQDEP" | tail -40
+# (a grep that filters every line exits 1: never let that decide the result of the build)
+if ! timeout 3000 make -j"$(nproc)" > ../build/make.log 2>&1; then
+  grep -v "^Closed under\|^COQC\|^COQDEP" ../build/make.log | tail -40 || true
+  echo "setup: Coq build failed"
+  exit 1
+fi
 cd ..
 /venv/bin/python -c "import sys; sys.path.insert(0,'harness'); import framework; framework.build_driver(force=True); print('driver built')"
